@@ -45,3 +45,9 @@ for _mod, _cls, _kind in [("sedpack/io/npz/iterate_npz.py", "IterateShardNP", "n
             ("C02", "seq(result) == MAPQ(FOI(self.process_record), SEQOF(STREAMVAL(ITERV(%r, self.dataset_structure, shard_file))))" % _kind),
         ],
         raises={"Foreign": ["True"]})
+
+# flat-map / map fusion: flattening process_and_list results = mapping
+# process_record over the flattened shard contents (reading of the
+# process_and_list contract above: ITEMS(PALF(k,ds,pr)(x)) = map(FOI(pr), ITEMS(ITERV(k,ds,x))))
+axiom("forall(lambda k, ds, pr, s: FLATS(MAPS(PALF(k, ds, pr), s)) == ite_stream(pr != None_U(), MAPS(pr, FLATS(MAPS(RD(k, ds), s))), FLATS(MAPS(RD(k, ds), s))), k='U', pr='U', s='STREAM')")
+axiom("forall(lambda k, ds, pr, m: FLATMS(MAPMS(PALF(k, ds, pr), m)) == ite_ms(pr != None_U(), MAPMS(pr, FLATMS(MAPMS(RD(k, ds), m))), FLATMS(MAPMS(RD(k, ds), m))), k='U', pr='U', m='MS')")
